@@ -340,6 +340,27 @@ def _case_flat_reader(case, ctx):
             if rd.n_samples != n:
                 ctx.violation('bad_reader_chunk_bounds', sub, 'n_samples %r != %d' % (rd.n_samples, n))
             _check_iter(rd, A, sub, ctx, cache=True)
+            # readers derived from this one (a channel selection, a gain) keep its chunk grid
+            for nm_, der_ in (('reader[:, [0]]', call(lambda: rd[:, [0]])), ('reader * 2', call(lambda: rd * 2))):
+                if der_.ok and hasattr(der_.value, 'chunk_bounds'):
+                    m_d = _check_bounds(der_.value.chunk_bounds, sizes, cs)
+                    ctx.count(1, cell=('flat_reader', 'derived'))
+                    if m_d:
+                        ctx.violation('bad_reader_chunk_bounds', dict(sub, derived=nm_), '%s: %s' % (nm_, m_d))
+                        break
+            if cs_f == case['chunks'][-1] and len(sizes) >= 1 and not case.get('same_name'):
+                # the last file grows after the reader was opened (an acquisition still running): the reader's grid stays that of the
+                # recording it was opened on, consistent with its own part bounds and sample count
+                r3 = call(get_ephys_reader, list(paths), sample_rate=cs_f / 600., dtype=np.int16, n_channels=2, offset=offset)
+                if r3.ok:
+                    with open(paths[-1], 'ab') as f_:
+                        f_.write(np.zeros((5, 2), dtype=np.int16).tobytes())
+                    ctx.count(1, cell=('flat_reader', 'file_grew_after_open'))
+                    pb_ = [int(x) for x in r3.value.part_bounds]
+                    m_g = _check_bounds(r3.value.chunk_bounds, list(np.diff(pb_)), cs)
+                    if m_g or int(r3.value.n_samples) != pb_[-1]:
+                        ctx.violation('bad_reader_chunk_bounds', dict(sub, file_grew=True), 'the last file grew by 5 rows after the reader was opened: part bounds %r, n_samples %r, chunk bounds %r (%s)' % (
+                            pb_, r3.value.n_samples, [int(x) for x in r3.value.chunk_bounds], m_g or 'sample count differs'))
             if cs_f == case['chunks'][0]:
                 # the caller forwards a params dictionary: n_channels_dat is the number of channels in the file, n_channels the
                 # number of channels kept for sorting - the file layout is given by the former
@@ -532,6 +553,20 @@ def _case_cbin_reader(case, ctx):
                         ctx.violation('bad_reader_chunk_bounds', sub, 'chunk_bounds %s' % cb)
                     _check_iter(rd, A, sub, ctx, cache=cache)
                     rd.reader.close()
+        # two compressed recordings of one session in one folder (rec.ap / rec.lf): each opened by its path
+        if not case.get('lens') and n >= 4:
+            A_lf = L.unique_cells(max(2, n // 3), 3, np.int16)
+            p_ap = L.write_cbin(d, A, 100., cl, stem='sess.ap')
+            p_lf = L.write_cbin(d, A_lf, 100., max(1, cl // 2), stem='sess.lf')
+            for p_, A_, cl_ in ((p_lf, A_lf, max(1, cl // 2)), (p_ap, A, cl)):
+                rp = call(get_ephys_reader, p_)
+                ctx.count(1, cell=('cbin_reader', 'two_in_one_folder'))
+                if rp.ok:
+                    cb = [int(x) for x in rp.value.chunk_bounds]
+                    if cb[0] != 0 or cb[-1] != len(A_) or any(y <= x or y - x > cl_ for x, y in zip(cb, cb[1:])):
+                        ctx.violation('bad_reader_chunk_bounds', dict(case, two_in_one_folder=os.path.basename(str(p_))), '%s (%d samples, chunks of %d) opened by path next to its sibling: chunk_bounds %s' % (
+                            os.path.basename(str(p_)), len(A_), cl_, cb))
+                    call(lambda: rp.value.reader.close())
         # history: the file is opened by its path, recompressed under the same name with another length, opened again
         r1 = call(get_ephys_reader, path)
         if r1.ok:
